@@ -496,13 +496,13 @@ func dsRun(line string) (result, monitor string, nMsgs int, classes []string) {
 
 // dsRunChild runs the line in a child process with a 3 GiB address-space limit (ops that may ask the server
 // for gigabytes); a child that dies is reported as OOM.
-func dsRunChild(comp, line string) (string, string) {
+func dsRunChild(comp, prefix, line string) (string, string) {
 	f, err := os.CreateTemp("", "verif-dns-*.ops")
 	if err != nil {
 		return "child-failed", ""
 	}
 	defer os.Remove(f.Name())
-	fmt.Fprintf(f, "%s %s\n", comp, strings.Replace(line, " !big", "", 1))
+	fmt.Fprintf(f, "%s %s%s\n", comp, prefix, strings.Replace(line, " !big", "", 1))
 	f.Close()
 	cmd := exec.Command(os.Args[0], comp, "replay", "-ops", f.Name())
 	cmd.Env = append(os.Environ(), "VERIF_DNS_CHILD=1")
@@ -537,9 +537,9 @@ func init() {
 
 type dsComp struct{}
 
-func dsExec(comp, op string) (string, string, string, bool) {
+func dsExec(comp, prefix, op string) (string, string, string, bool) {
 	if strings.Contains(op, " !big") && os.Getenv("VERIF_DNS_CHILD") != "1" {
-		res, mon := dsRunChild(comp, op)
+		res, mon := dsRunChild(comp, prefix, op)
 		return res, mon, "big", true
 	}
 	res, mon, _, classes := dsRun(strings.Replace(op, " !big", "", 1))
@@ -568,7 +568,7 @@ func dsExec(comp, op string) (string, string, string, bool) {
 	return res, mon, strings.Join(ks, ","), nontrivial
 }
 
-func (dsComp) Exec(op string) (string, string, string, bool) { return dsExec("dnssess", op) }
+func (dsComp) Exec(op string) (string, string, string, bool) { return dsExec("dnssess", "", op) }
 
 // ---------------------------------------------------------------- generation
 
